@@ -39,7 +39,7 @@ var properties = map[string]Property{}
 func init() {
 	properties["C05"] = Property{
 		Level: "exploration",
-		Rule:  "one case = (pattern, data, initial bindings, Go-typing mode); patterns are derived from the data (drop keys/elements, substitute variables with repeats, perturb constants), data derived from patterns, or independent; non-trivial = the reference matcher yields >=1 binding and the pattern has a variable or nested structure; distinct by canonical JSON of the case",
+		Rule:  "one case = (pattern, data, initial bindings, Go-typing mode); patterns are derived from the data (drop keys/elements, substitute variables with repeats, perturb constants), data derived from patterns, or independent; non-trivial = the reference matcher yields >=1 binding and the pattern has a variable or nested structure; distinct by canonical JSON of the case; also through /api/sys/util/match and Env.match for every 7th plain case; look-alike scalars; dynamic type and object identity of the initial bindings before/after (with an extra Go-typed binding the pattern never mentions)",
 		Floor: [2]int{2000, 20000},
 		Assumptions: []string{"the 60-line reference matcher lib/ref.Match is the specification of partial matching (maps may have extra keys, arrays are sets, repeated variables need deep-equal values)",
 			"inputs stay inside the documented fragment (arrays of distinct scalars with at most one variable, or arrays of maps; data holds no variable-looking strings - those belong to C13)"},
@@ -60,7 +60,7 @@ func init() {
 func init() {
 	properties["C02"] = Property{
 		Level: "exploration",
-		Rule:  "one case = one operation of a generated history (AddFact/RemFact/GetFact/SearchFacts over 5 ids, omitted ids and property facts; facts with numbers, booleans, over-long strings, keys ending in '!', a `rule` key) judged on both state implementations against the model; search patterns are derived from stored and formerly stored facts; non-trivial = the expected search result is non-empty, or the id was written before; distinct by canonical JSON of the history prefix",
+		Rule:  "one case = one operation of a generated history (AddFact/RemFact/GetFact/SearchFacts over 5 ids, omitted ids and property facts; facts with numbers, booleans, over-long strings, keys ending in '!', a `rule` key) judged on both state implementations against the model; search patterns are derived from stored and formerly stored facts; non-trivial = the expected search result is non-empty, or the id was written before; distinct by canonical JSON of the history prefix; plus (batch 0) ids generated for concurrent id-less adds on 8 locations must be distinct; scalars include look-alikes across JSON types (\"1\"/1, \"true\"/true)",
 		Floor: [2]int{500, 5000},
 		Assumptions: []string{"lib/ref.Match + lib/ref.Loc are the specification; facts hold no variable-looking strings (C13) and no ttl/expires (C07)"},
 		Stages: []Stage{{Name: "search", Pkg: "./mon/c02", Procs: 1, Batches: [2]int{8, 16}, TimeoutS: [2]int{600, 3000}}},
@@ -70,7 +70,7 @@ func init() {
 func init() {
 	properties["C08"] = Property{
 		Level: "exploration",
-		Rule:  "one case = (dependency graph, deletion prefix, state kind) observed after the deletion: GetFact of every id ever used, StateSize, ListRules and the MemStorage contents compared with the model closure; graphs over <=7 ids (chains, fans, cycles, self-loops, dangling targets, rules, `disabled` property facts, variable-looking ids); deletion by RemFact, RemRule, of absent ids, and by expiry (ttl 1 s observed after 2.2 s); non-trivial = the deletion removed >=2 ids in the model; distinct by canonical JSON of (state, operation list)",
+		Rule:  "one case = (dependency graph, deletion prefix, state kind) observed after the deletion: GetFact of every id ever used, StateSize, ListRules and the MemStorage contents compared with the model closure; graphs over <=7 ids (chains, fans, cycles, self-loops, dangling targets, rules, `disabled` property facts, variable-looking ids); deletion by RemFact, RemRule, of absent ids, and by expiry (ttl 1 s observed after 2.2 s); non-trivial = the deletion removed >=2 ids in the model; distinct by canonical JSON of (state, operation list); reload steps between building and deleting, before the expiry instant and after it (item expiring while unloaded)",
 		Floor: [2]int{200, 2000},
 		Assumptions: []string{"lib/ref.Loc.Rem (worklist closure; Rem of an absent id still cascades, as both implementations and the manual do) is the specification", "per-call watchdog of 20 s decides 'terminates'"},
 		Stages: []Stage{{Name: "cascade", Pkg: "./mon/c08", Procs: 1, Batches: [2]int{8, 16}, TimeoutS: [2]int{600, 3000}}},
@@ -80,7 +80,7 @@ func init() {
 func init() {
 	properties["C10"] = Property{
 		Level: "exploration",
-		Rule:  "one case = (lifecycle walk prefix, location, rule id) observed by a full ProcessEvent whose action values name the rule version that ran, plus RuleEnabled and ListRules; walks of 10-25 steps over add/overwrite/RemRule/RemFact/overwrite-by-fact/disable/enable/reload/location off+on on 2 ids, every third walk with the rules in a parent and flags in the child; non-trivial = the step changed which versions must fire somewhere; distinct by canonical JSON of (state, walk prefix, location, id)",
+		Rule:  "one case = (lifecycle walk prefix, location, rule id) observed by a full ProcessEvent whose action values name the rule version that ran, plus RuleEnabled and ListRules; walks of 10-25 steps over add/overwrite/RemRule/RemFact/overwrite-by-fact/disable/enable/reload/location off+on on 2 ids, every third walk with the rules in a parent and flags in the child; non-trivial = the step changed which versions must fire somewhere; distinct by canonical JSON of (state, walk prefix, location, id); the disabled-location probes include evaluate! and trigger! events",
 		Floor: [2]int{200, 2000},
 		Assumptions: []string{"the model: the disabled flag belongs to the id (can be set before the rule exists), is cleared by removal of the id, survives reload; duplicate ids across child and parent are the documented error"},
 		Stages: []Stage{{Name: "lifecycle", Pkg: "./mon/c10", Procs: 2, Batches: [2]int{8, 16}, TimeoutS: [2]int{900, 3600}}},
@@ -90,7 +90,7 @@ func init() {
 func init() {
 	properties["C03"] = Property{
 		Level: "exploration",
-		Rule:  "one case = (fact set of 0-8 small facts, own and inherited; query tree of depth <=4 with arity 0..3, empty and/or, not under and/or, shortCircuit on/off, shared and fresh variables, code leaves from a family with known value) evaluated by Location.Query and, for half of them, as a rule condition inside ProcessEvent; compared as multisets of bindings; non-trivial = depth >=2 with a non-empty result, or not/or nested under another operator; distinct by canonical JSON of (state, facts, query)",
+		Rule:  "one case = (fact set of 0-8 small facts, own and inherited; query tree of depth <=4 with arity 0..3, empty and/or, not under and/or, shortCircuit on/off, shared and fresh variables, code leaves from a family with known value) evaluated by Location.Query and, for half of them, as a rule condition inside ProcessEvent; compared as multisets of bindings; non-trivial = depth >=2 with a non-empty result, or not/or nested under another operator; distinct by canonical JSON of (state, facts, query); parents re-use the child's fact ids in half of the sets with a parent; look-alike scalars",
 		Floor: [2]int{200, 2000},
 		Assumptions: []string{"lib/ref.Eval (written from the property statement) + lib/ref.Match are the specification", "code leaves come from a fixed family whose value is known (arbitrary JavaScript is out of reach)"},
 		Stages: []Stage{{Name: "query", Pkg: "./mon/c03", Procs: 2, Batches: [2]int{8, 16}, TimeoutS: [2]int{900, 3600}}},
@@ -100,7 +100,7 @@ func init() {
 func init() {
 	properties["C04"] = Property{
 		Level: "exploration",
-		Rule:  "one case = one processed event in a generated world (0-4 rules with 1-3 actions each, `when` patterns with an array variable giving several bindings, conditions giving 0-3 bindings, serial and concurrent policy, failing action variants, both states); three records of the executions (Env.out side channel, tree nodes, values) are compared with the expected multiset; non-trivial = >=2 executions expected; distinct by canonical JSON of (state, rules, facts, event); run under the Go race detector",
+		Rule:  "one case = one processed event in a generated world (0-4 rules with 1-3 actions each, `when` patterns with an array variable giving several bindings, conditions giving 0-3 bindings, serial and concurrent policy, failing action variants, both states); three records of the executions (Env.out side channel, tree nodes, values) are compared with the expected multiset; non-trivial = >=2 executions expected; distinct by canonical JSON of (state, rules, facts, event); run under the Go race detector; every ok-action marks its `event` and reports whether it found it unmarked (private copies), the event in the tree is compared with the submitted one; `triggered`: ordinary / trigger! / evaluate! / one-shot runs of rules whose body carries an id of its own; `reservedVars`: `when` variables named ?location / ?ruleId / ?event",
 		Floor: [2]int{100, 1000},
 		Assumptions: []string{"expected multiset computed with lib/ref.Match and lib/ref.Eval", "action scripts come from a template that returns its visible environment"},
 		Stages: []Stage{{Name: "actions", Pkg: "./mon/c04", Race: true, Procs: 4, Batches: [2]int{4, 12}, TimeoutS: [2]int{900, 3600}}},
@@ -110,7 +110,7 @@ func init() {
 func init() {
 	properties["C19"] = Property{
 		Level: "exploration",
-		Rule:  "one case = (operation, protection state, caller, state kind, generated initial content): 26 operations (direct, from RunJavascript, from a rule action, the removal of a one-shot scheduled rule at the end of its triggered run) x {none, writeKey, readKey, both, readOnly, disabled} x {no key, wrong key, right key} x {indexed, linear}; refused => error and identical raw storage and live items; allowed => same result and resulting state as an unprotected twin; second matrix: 8 inherited reads (search, list and search rules, query, JS search/query, event dispatch, a child rule whose condition reads the parent) issued at an unprotected child whose PARENT is {unprotected, read key, both keys, write key, disabled} x callers x states: without the parent's read key nothing of the parent is revealed, an error is reported and both storages are unchanged; non-trivial = protection state != none; distinct by (state, protection, caller, op, content seed)",
+		Rule:  "one case = (operation, protection state, caller, state kind, generated initial content): 26 operations (direct, from RunJavascript, from a rule action, the removal of a one-shot scheduled rule at the end of its triggered run) x {none, writeKey, readKey, both, readOnly, disabled} x {no key, wrong key, right key} x {indexed, linear}; refused => error and identical raw storage and live items; allowed => same result and resulting state as an unprotected twin; second matrix: 8 inherited reads (search, list and search rules, query, JS search/query, event dispatch, a child rule whose condition reads the parent) issued at an unprotected child whose PARENT is {unprotected, read key, both keys, write key, disabled} x callers x states: without the parent's read key nothing of the parent is revealed, an error is reported and both storages are unchanged; non-trivial = protection state != none; distinct by (state, protection, caller, op, content seed); protection is set in three ways by round (SetProp, property fact without id, property fact under a caller-chosen id)",
 		Floor: [2]int{200, 2000},
 		Assumptions: []string{"the matrix of DESIGN §5 C19: write operations need the write key / are refused when read-only; operations that reveal facts or rules need the read key; a disabled location refuses everything; RuleEnabled/GetParents/SetProp/StateSize-when-disabled are outside the matrix"},
 		Stages: []Stage{{Name: "matrix", Pkg: "./mon/c19", Procs: 2, Batches: [2]int{4, 8}, TimeoutS: [2]int{900, 3600}}},
@@ -120,7 +120,7 @@ func init() {
 func init() {
 	properties["C14"] = Property{
 		Level: "exploration",
-		Rule:  "one case = (script from 5 families, timeout setting {location control 50-300 ms, system default 400 ms, timeouts disabled}, position {RunJavascript, rule condition, rule action}, state kind); non-terminating => error/non-complete node, return not before the limit and (canary-judged) within 12 s of it; throwing/invalid => error, never success; finishing => expected value with exactly its bindings visible; non-trivial = script is throwing, invalid or non-terminating, or a timeout is configured; distinct by the case tuple",
+		Rule:  "one case = (script from 5 families, timeout setting {location control 50-300 ms, system default 400 ms, timeouts disabled}, position {RunJavascript, rule condition, rule action}, state kind); non-terminating => error/non-complete node, return not before the limit and (canary-judged) within 12 s of it; throwing/invalid => error, never success; finishing => expected value with exactly its bindings visible; non-trivial = script is throwing, invalid or non-terminating, or a timeout is configured; distinct by the case tuple; `siblingScopes` (or/and/not over scripts that return objects; an action reports whether it sees a sibling's variable) and `libraryScripts` (the same text with library twice / none / thrice / broken in three orders as action, condition and RunJavascript)",
 		Floor: [2]int{30, 100},
 		Assumptions: []string{"bounded progress is judged against a canary timer in the same Go runtime: only when the canary fired on time and the call is still blocked 12 s later is it a violation; a late canary makes the case inconclusive", "scripts blocked inside a host function (Env.sleep(1e12)) are out of reach: otto can only be interrupted between statements"},
 		Stages: []Stage{
@@ -137,7 +137,7 @@ func init() {
 	}
 	properties["C13"] = Property{
 		Level: "exploration",
-		Rule:  "one case = one hostile document (grammar: wrong types under reserved keys, variable-looking strings as data/keys/ids, empty and up-to-64-deep containers, heterogeneous arrays, raw non-JSON bodies) through one entry point (AddFact, AddRule, RemFact, GetFact, SearchFacts, SearchRules, Query, ProcessEvent, ListRules) of core.Location, sys.System or the HTTP service (httptest), both states, each followed by canary traffic (AddFact/GetFact/ProcessEvent of a fixed rule) on the same location; oracle: returns within 25 s, no panic, HTTP answers, canary still works; non-trivial = the document touches a reserved key, has a variable-looking string or depth >= 8; distinct by canonical JSON of the call",
+		Rule:  "one case = one hostile document (grammar: wrong types under reserved keys, variable-looking strings as data/keys/ids, empty and up-to-64-deep containers, heterogeneous arrays, raw non-JSON bodies) through one entry point (AddFact, AddRule, RemFact, GetFact, SearchFacts, SearchRules, Query, ProcessEvent, ListRules) of core.Location, sys.System or the HTTP service (httptest), both states, each followed by canary traffic (AddFact/GetFact/ProcessEvent of a fixed rule) on the same location; oracle: returns within 25 s, no panic, HTTP answers, canary still works; non-trivial = the document touches a reserved key, has a variable-looking string or depth >= 8; distinct by canonical JSON of the call; (batch 0) `storedVarStrings`: facts holding variable-looking strings stay stored while queries, rule conditions and searches using the same variable names run; `hostileScripts`: 39 scripts calling the Env functions with absent / ill-typed / malformed arguments as action and as condition; raw bodies include empty JSON-typed parameters",
 		Floor: [2]int{1000, 10000},
 		Assumptions: []string{"per-call watchdog 25 s for operations that take milliseconds", "the strict canary (canary rule fired) is applied only while no hostile item with a `rule` key is stored, otherwise the canary only has to return without panic", "the process-fatal sheens recursion (same repeated variable string in pattern and datum) is confined to a dedicated child; pattern-position documents get fresh, non-repeated variable names"},
 		Stages: []Stage{c13("loc", [2]int{4, 8}), c13("sys", [2]int{2, 4}), c13("http", [2]int{2, 4}), c13("sheens", [2]int{1, 1})},
@@ -147,7 +147,7 @@ func init() {
 func init() {
 	properties["C12"] = Property{
 		Level: "exploration",
-		Rule:  "one case = one recorded history: 2-6 clients x 4-8 operations on 3 shared ids of one location (families: facts; rules+events; rules+enable+events; facts and rules on the same ids), unique written values, seeded delays at the verifhook points in two thirds of the histories, final reads of every id from the live and from a reloaded location; checked by porcupine against the sequential model (60 s timeout => inconclusive) and run under the race detector; non-trivial = >=2 clients overlapped in time and >=1 read observed a value written by another client; distinct by (seed, history index)",
+		Rule:  "one case = one recorded history: 2-6 clients x 4-8 operations on 3 shared ids of one location (families: facts; rules+events; rules+enable+events; facts and rules on the same ids), unique written values, seeded delays at the verifhook points in two thirds of the histories, final reads of every id from the live and from a reloaded location; checked by porcupine against the sequential model (60 s timeout => inconclusive) and run under the race detector; non-trivial = >=2 clients overlapped in time and >=1 read observed a value written by another client; distinct by (seed, history index); plus `clearVsWrites` (4 writers and a clearer on a storage whose Clear is slow: live = reloaded, writes ordered against the last Clear) and `searchVsAdds` (ids with a past that left dangling term entries, 3 searchers and 3 adders, then a search must find every acknowledged fact, live and reloaded)",
 		Floor: [2]int{50, 500},
 		Assumptions: []string{"the sequential model in mon/c12 (a map id -> fact/rule plus disabled flags) is the specification", "a strict-model failure that the relaxed model pe-two-instant accepts is attributed to the open finding c12.pe-two-instant", "schedules are sampled (stress + injected delays), not enumerated"},
 		Stages: []Stage{{Name: "histories", Pkg: "./mon/c12", Race: true, Procs: 8, Batches: [2]int{4, 8}, TimeoutS: [2]int{1200, 3600}, HangIsViolation: true}},
@@ -157,7 +157,7 @@ func init() {
 func init() {
 	properties["C11"] = Property{
 		Level: "exploration",
-		Rule:  "one case = one client (location) of one concurrent round: 8-16 clients released on a barrier against a fresh engine, each issuing 12-21 generated requests (facts, rules, events, searches, queries, removes) to its own location, starting with the engine's first requests; half of the rounds through the HTTP service (httptest); seeded delays at sys.storage.gap / sys.open.gap in two thirds of the rounds; compared request by request and by final state with the same sequences run alone on another fresh engine; run under the race detector; non-trivial = at least two clients overlapped in time; distinct by (seed, round, client)",
+		Rule:  "one case = one client (location) of one concurrent round: 8-16 clients released on a barrier against a fresh engine, each issuing 12-21 generated requests (facts, rules, events, searches, queries, removes) to its own location, starting with the engine's first requests; half of the rounds through the HTTP service (httptest); seeded delays at sys.storage.gap / sys.open.gap in two thirds of the rounds; compared request by request and by final state with the same sequences run alone on another fresh engine; run under the race detector; non-trivial = at least two clients overlapped in time; distinct by (seed, round, client); every other round configures CodeProps, half of the rule actions write through Env.AddFact and report Env.Location; every fifth round runs with timers on and MaxTimers 5",
 		Floor: [2]int{20, 200},
 		Assumptions: []string{"schedules are sampled (barrier start + injected delays), not enumerated", "engines are created sequentially by the harness (NewSystem writes a process-wide parameter; DESIGN §6.6)"},
 		Stages: []Stage{{Name: "locations", Pkg: "./mon/c11", Race: true, Procs: 8, Batches: [2]int{3, 8}, TimeoutS: [2]int{1200, 3600}, HangIsViolation: true}},
@@ -167,7 +167,7 @@ func init() {
 func init() {
 	properties["C20"] = Property{
 		Level: "exploration",
-		Rule:  "cases: (a) one add/remove history of 8-23 steps around MaxFacts in 1..6 on ids max+2 wide (facts, rules, overwrites at the boundary), both states, plus rounds of 8-15 concurrent adders (facts only / rules only / mixed; every other round starts one below the maximum); (b) one breaker run: limit 1-20, interval 40-400 ms, 1-16 concurrent callers, arrival patterns burst+slow poll / burst+fast poll (faster than interval/20) / steady / random over 3 intervals, every Zap logged with [before, after] and checked offline for the sliding-window bound and for recovery; (c) one throttle run: 8-63 submitters, pending limit 1-4, Pending() sampled and, independently, the submissions seen waiting at one instant counted by a probe around the throttle's breaker (a submission is certainly waiting between its first and its last attempt); non-trivial = the limit was reached (an add refused / a poll refused / a submission overflowed); distinct by the run's parameters and history",
+		Rule:  "cases: (a) one add/remove history of 8-23 steps around MaxFacts in 1..6 on ids max+2 wide (facts, rules, overwrites at the boundary), both states, plus rounds of 8-15 concurrent adders (facts only / rules only / mixed; every other round starts one below the maximum); (b) one breaker run: limit 1-20, interval 40-400 ms, 1-16 concurrent callers, arrival patterns burst+slow poll / burst+fast poll (faster than interval/20) / steady / random over 3 intervals, every Zap logged with [before, after] and checked offline for the sliding-window bound and for recovery; (c) one throttle run: 8-63 submitters, pending limit 1-4, Pending() sampled and, independently, the submissions seen waiting at one instant counted by a probe around the throttle's breaker (a submission is certainly waiting between its first and its last attempt); non-trivial = the limit was reached (an add refused / a poll refused / a submission overflowed); distinct by the run's parameters and history; breaker runs also through core.HTTPRequest.Do against a local endpoint with the breaker registered by host or URL (admitted = reached the endpoint, refused = 430); a quarter of the throttle runs disable the breaker, another quarter the throttle (no pending bound judged there)",
 		Floor: [2]int{30, 300},
 		Assumptions: []string{"breaker verdicts use only interval arithmetic on monotonic [before, after] stamps: a rate violation needs limit+1 admissions with max(after)-min(before) < interval; a recovery violation needs a refused poll whose `before` is later than every earlier admission's `after` + interval + 2 ticks", "a starved period in which every gap between consecutive polls is shorter than interval/20 is the open finding c20.breaker-slide-drops-remainder"},
 		Stages: []Stage{
@@ -181,7 +181,7 @@ func init() {
 func init() {
 	properties["C06"] = Property{
 		Level: "fault_enumeration",
-		Rule:  "generated histories of 10-23 operations (AddFact with ttl / expires / deleteWith, AddRule, RemFact, RemRule, EnableRule, SetParents, Clear) for state in {indexed, linear} x storage in {memory, bolt}; per history ALL of: a reload point after every prefix (live vs rebuilt location: per-id values, expiry, probe searches, dispatch, rules, parents, size; stored form of expiring items), a crash point after EVERY storage write (memory: deep snapshot; bolt: a sub-process SIGKILLed right after the write, file reopened; quick samples 4-5 bolt points per history, thorough all) judged per id (old or new value), and a fault point for EVERY storage call (the issuing operation must return an error); plus an aliasing canary for data handed out by Load (bolt: own sub-process); one case = one (history, point); non-trivial = the interrupted / last operation changed >=1 id (fault points: always); distinct by canonical JSON of (state, history, point)",
+		Rule:  "generated histories of 10-23 operations (AddFact with ttl / expires / deleteWith, AddRule, RemFact, RemRule, EnableRule, SetParents, Clear) for state in {indexed, linear} x storage in {memory, bolt}; per history ALL of: a reload point after every prefix (live vs rebuilt location: per-id values, expiry, probe searches, dispatch, rules, parents, size; stored form of expiring items), a crash point after EVERY storage write (memory: deep snapshot; bolt: a sub-process SIGKILLed right after the write, file reopened; quick samples 4-5 bolt points per history, thorough all) judged per id (old or new value), and a fault point for EVERY storage call (the issuing operation must return an error); plus an aliasing canary for data handed out by Load (bolt: own sub-process); one case = one (history, point); non-trivial = the interrupted / last operation changed >=1 id (fault points: always); distinct by canonical JSON of (state, history, point); histories include replacements that indexed state refuses (unindexable `when`) over existing ids",
 		Floor: [2]int{500, 5000},
 		Assumptions: []string{"torn writes inside one bolt transaction are bolt's guarantee (trusted)", "Cassandra / DynamoDB back ends are out of reach offline", "the live location's own per-id values before and after an operation are the reference for crash points (their agreement with a reload is established by the reload points)"},
 		Stages: []Stage{
@@ -194,7 +194,7 @@ func init() {
 func init() {
 	properties["C07"] = Property{
 		Level: "exploration",
-		Rule:  "one case = one timed scenario: item kind {fact, rule} x expiry encoding {expires numeric, expires RFC3339, ttl number, ttl duration, none} x state x observation schedule (reads by get/search/dispatch/list, reloads before and after the expiry instant, reload late enough to expose a restarted ttl, reads dense around the boundary second), expiry 3-4 s ahead, 60 scenarios in parallel on separate locations; plus already-expired writes; every observation carries [before, after] in UNIX seconds; non-trivial = at least one observation certainly before and one certainly after the expiry instant; distinct by the scenario tuple",
+		Rule:  "one case = one timed scenario: item kind {fact, rule} x expiry encoding {expires numeric, expires RFC3339, ttl number, ttl duration, none} x state x observation schedule (reads by get/search/dispatch/list, reloads before and after the expiry instant, reload late enough to expose a restarted ttl, reads dense around the boundary second), expiry 3-4 s ahead, 60 scenarios in parallel on separate locations; plus already-expired writes; every observation carries [before, after] in UNIX seconds; non-trivial = at least one observation certainly before and one certainly after the expiry instant; distinct by the scenario tuple; one schedule per item uses a single observation kind (dispatch only for rules) so that nothing else touches the item between write and expiry",
 		Floor: [2]int{24, 60},
 		Assumptions: []string{"the code's clock is whole seconds: an observation straddling the expiry second is accepted either way", "a rule with an RFC3339 expires is refused by AddRule (Rule.expires is a number); a refused write is recorded, not judged"},
 		Stages: []Stage{{Name: "timed", Pkg: "./mon/c07", Procs: 4, Batches: [2]int{1, 2}, TimeoutS: [2]int{300, 900}}},
@@ -204,7 +204,7 @@ func init() {
 func init() {
 	properties["C09"] = Property{
 		Level: "exploration",
-		Rule:  "one case = one step of a history over a forest of 3-6 locations (through a SimpleLocationProvider of core.Locations and through sys.System, both states): facts, rules, removals, EnableRule flags for inherited rules and SetParents (chains, fans, two parents, diamonds); after the step the own view (get, non-inherited search) and the inherited view (inherited search as a multiset, inherited rule list, dispatch of 2 probe events) of EVERY location are compared with the model; plus 16 loop cases (self, length 2, length 3, loop not through the start) in their own child; non-trivial = the forest has >=1 parent edge; distinct by canonical JSON of (entry point, state, history prefix)",
+		Rule:  "one case = one step of a history over a forest of 3-6 locations (through a SimpleLocationProvider of core.Locations and through sys.System, both states): facts, rules, removals, EnableRule flags for inherited rules and SetParents (chains, fans, two parents, diamonds); after the step the own view (get, non-inherited search) and the inherited view (inherited search as a multiset, inherited rule list, dispatch of 2 probe events) of EVERY location are compared with the model; plus 16 loop cases (self, length 2, length 3, loop not through the start) in their own child; non-trivial = the forest has >=1 parent edge; distinct by canonical JSON of (entry point, state, history prefix); every third history uses the same fact ids in all locations; events carrying an embedded rule are sent with a Context the client used for another location before",
 		Floor: [2]int{200, 2000},
 		Assumptions: []string{"lib/ref.Loc + lib/ref.Match per location; expected inherited result = union over the transitive parents, each fact once", "rule ids are unique across locations (the same id in child and parent is the documented duplicate-id error, exercised in C10)"},
 		Stages: []Stage{
@@ -230,7 +230,7 @@ func init() {
 func init() {
 	properties["C16"] = Property{
 		Level: "exploration",
-		Rule:  "one case = one job life (add -> fire / remove / replace) in a recorded run; in-memory cron: 13 runs per round in parallel (directed patterns: remove the head and stay quiet, replace the head by a later time, add earlier than the head, add during suspension, pause, remove a recurring job during its run, replace a recurring job (or remove and re-add it) so that old and new callback run at the same time and the old one returns first, recurring + one-shot; and random mixes over 4 ids with due 50-800 ms, removals, suspend/resume/pause windows, slow callbacks), Timeline walked under the cron's lock at quiescent points; Bolt-backed cron (overlay test in package main): operation sequences with harness-driven work() ticks, fires observed as hits on an httptest server, jobs<p>/time<p> buckets compared key for key after every operation and after every close/reopen; then a concurrent phase: a goroutine loops over the work() transactions of all partitions against an endpoint that holds each request open 40-120 ms while Add/Delete/Get run, with Deletes issued at the moment a request of that job is in flight (no request after Delete returned, none before due, recurring not more often than its occurrences, buckets compared at quiescent points); non-trivial = the job was replaced, removed, or overlapped a suspend/pause window (crolt: was deleted, duplicated or lived across a reopen); distinct by (run seed, pattern, job id, generation)",
+		Rule:  "one case = one job life (add -> fire / remove / replace) in a recorded run; in-memory cron: 13 runs per round in parallel (directed patterns: remove the head and stay quiet, replace the head by a later time, add earlier than the head, add during suspension, pause, remove a recurring job during its run, replace a recurring job (or remove and re-add it) so that old and new callback run at the same time and the old one returns first, recurring + one-shot; and random mixes over 4 ids with due 50-800 ms, removals, suspend/resume/pause windows, slow callbacks), Timeline walked under the cron's lock at quiescent points; Bolt-backed cron (overlay test in package main): operation sequences with harness-driven work() ticks, fires observed as hits on an httptest server, jobs<p>/time<p> buckets compared key for key after every operation and after every close/reopen; then a concurrent phase: a goroutine loops over the work() transactions of all partitions against an endpoint that holds each request open 40-120 ms while Add/Delete/Get run, with Deletes issued at the moment a request of that job is in flight (no request after Delete returned, none before due, recurring not more often than its occurrences, buckets compared at quiescent points); non-trivial = the job was replaced, removed, or overlapped a suspend/pause window (crolt: was deleted, duplicated or lived across a reopen); distinct by (run seed, pattern, job id, generation); in-memory patterns added in round 2: a recurring callback that returns an error once, 8 concurrent Adds of one id (twice) then Rem, schedules without an occurrence (30 February) or years away; crolt prelude: re-add of a fired one-shot's id inside the eviction window",
 		Floor: [2]int{30, 100},
 		Assumptions: []string{"no-early-fire and no-fire-after-Rem are judged on monotonic call/return stamps; 'fires when due' is bounded progress (due + 1.5 s, outside suspend/pause windows) judged only when a canary timer was on time", "crolt: a job's due time is the time in its own TId key (jitter set to 0)"},
 		Stages: []Stage{
@@ -244,7 +244,7 @@ func init() {
 func init() {
 	properties["C17"] = Property{
 		Level: "exploration",
-		Rule:  "cases: (twin) one request of a generated history over 3 locations executed under TTL {never, 1 ms, forever} x CheckExistence {off, on} x state {indexed, linear} and directly on core.Locations, all results compared (histories include `!cacheTTL` property facts with numeric and non-numeric values and clearing a location); with existence checking also requests to a never-created location (must fail, no trace in storage or cache); (first) one round of 8 concurrent first requests with seeded delays in sys.open.gap / sys.storage.gap, every fourth round a forced schedule (first opener parked in the gap); (overlap) one recorded register history of 3-5 overlapping clients under TTL never with requests held open by a sleeping action, checked per key by porcupine; non-trivial = the configurations differ in TTL and a location was re-opened (twin), always for first/overlap; distinct by (seed, history, configuration, request index)",
+		Rule:  "cases: (twin) one request of a generated history over 3 locations executed under TTL {never, 1 ms, forever} x CheckExistence {off, on} x state {indexed, linear} and directly on core.Locations, all results compared (histories include `!cacheTTL` property facts with numeric and non-numeric values and clearing a location); with existence checking also requests to a never-created location (must fail, no trace in storage or cache); (first) one round of 8 concurrent first requests with seeded delays in sys.open.gap / sys.storage.gap, every fourth round a forced schedule (first opener parked in the gap); (overlap) one recorded register history of 3-5 overlapping clients under TTL never with requests held open by a sleeping action, checked per key by porcupine; non-trivial = the configurations differ in TTL and a location was re-opened (twin), always for first/overlap; distinct by (seed, history, configuration, request index); twin: a never-created location named as a parent and opened by an inherited search must still refuse direct requests; overlap: `slowEventReads` (an action notes its own clock, reads and writes while a client's write is acknowledged: a read later than the acknowledgement must contain it; TTL never / forever / 1 h)",
 		Floor: [2]int{40, 400},
 		Assumptions: []string{"load counts are read from GetStats().NewLocations and storage through PeekStorage (System offers no storage injection)", "the directly operated locations get the same cron hooks as the System wires (they make removing an absent id an error)"},
 		Stages: []Stage{
@@ -258,7 +258,7 @@ func init() {
 func init() {
 	properties["C18"] = Property{
 		Level: "exploration",
-		Rule:  "one case = (logical request of a generated history over the /api/loc/* family, rendering) with renderings {query parameters with /api, without /api, with a /v1.0 prefix, form body (with and without /api), JSON body (also under /v1.0/api), YAML body sniffed at the operation URI, /api/json envelope and /api/yaml and ProcessRequest with the uri spelled /api.., without /api, with a version prefix, element of /api/sys/util/batch under each spelling, and the whole history as one batch with the spelling varied per element}, each rendering on its own fresh engine, compared (status and normalised JSON result) with service.ProcessRequest called directly; arguments include strings that need URL/JSON/YAML escaping (in values, ids and location names); the histories include the one-parameter operations admin/create, clear, delete, size and rules/list; the direct calls are also compared with a sys.System twin; plus negative cases (each required parameter missing, ill-typed parameters, a uri that is not a string, unknown URI, failing operations) through every rendering that can express them; non-trivial = the rendering is not the direct call and an argument needs escaping, or the case is negative; distinct by (seed, history, request index, rendering)",
+		Rule:  "one case = (logical request of a generated history over the /api/loc/* family, rendering) with renderings {query parameters with /api, without /api, with a /v1.0 prefix, form body (with and without /api), JSON body (also under /v1.0/api), YAML body sniffed at the operation URI, /api/json envelope and /api/yaml and ProcessRequest with the uri spelled /api.., without /api, with a version prefix, element of /api/sys/util/batch under each spelling, and the whole history as one batch with the spelling varied per element}, each rendering on its own fresh engine, compared (status and normalised JSON result) with service.ProcessRequest called directly; arguments include strings that need URL/JSON/YAML escaping (in values, ids and location names); the histories include the one-parameter operations admin/create, clear, delete, size and rules/list; the direct calls are also compared with a sys.System twin; plus negative cases (each required parameter missing, ill-typed parameters, a uri that is not a string, unknown URI, failing operations) through every rendering that can express them; non-trivial = the rendering is not the direct call and an argument needs escaping, or the case is negative; distinct by (seed, history, request index, rendering); ids with quote and backslash; rules with a throwing condition and serial rules with a failing action (failing events); negatives with empty JSON-typed parameters",
 		Floor: [2]int{300, 3000},
 		Assumptions: []string{"generated request ids and timing fields are normalised away", "`set` of /api/loc/parents is rendered in its canonical JSON-string form"},
 		Stages: []Stage{{Name: "encodings", Pkg: "./mon/c18", Procs: 2, Batches: [2]int{4, 8}, TimeoutS: [2]int{900, 3600}}},
